@@ -223,4 +223,48 @@ def getIfPresent (c : TCfg) (t : Tbl) (k : Nat) (now : Int) : Tbl × Out :=
     if hasExpired n now then (t, .valOk 0 false)
     else (store t k (calcExpiresAtAfterRead c n now), .valOk n.val true)
 
+/-- evictNode + deleteNodeFromMap (the removal the size policy and the timer wheel ask for): the caller proposes Expiration
+    iff `n.HasExpired(now)`, else Overflow; inside the per-key computation the node is removed only if it is still the one
+    mapped (`same` = the pointer comparison n.AsPointer() == current.AsPointer(), an input like `correct` in finishCall — when
+    it holds the node handed in IS the current one), the reported cause goes through getCause once more -/
+def evictNode (t : Tbl) (k : Nat) (same : Bool) (now : Int) : Tbl × List Event :=
+  match lookup t k with
+  | none => (t, [])
+  | some cur =>
+    if same then
+      let proposed := if hasExpired cur now then Cause.expiration else Cause.overflow
+      (unlink t k, [{ key := cur.key, val := cur.val, cause := getCause cur now proposed }])
+    else (t, [])
+
+/-- deleteNode (InvalidateAll's per-node step): the same critical section with Invalidation proposed -/
+def deleteNode (t : Tbl) (k : Nat) (same : Bool) (now : Int) : Tbl × List Event :=
+  match lookup t k with
+  | none => (t, [])
+  | some cur =>
+    if same then (unlink t k, [{ key := cur.key, val := cur.val, cause := getCause cur now .invalidation }])
+    else (t, [])
+
+/-- nodeToEntry as GetEntry / GetEntryQuietly return it: value, weight, the two deadlines (unreachable when the policy is
+    off — the node layouts without the field answer MaxInt64, which is what newNode stores here) and the snapshot time
+    (0 without any time-based policy) -/
+def nodeToEntry (c : TCfg) (n : TNode) (now : Int) : Nat × Nat × Int × Int × Int :=
+  (n.val, n.weight, (if c.withExp then n.exp else maxI64), (if c.withRef then n.ref else maxI64),
+   (if c.withExp || c.withRef then now else 0))
+
+/-- GetEntryQuietly: getNodeQuietly (absent, or expired: nothing) then the snapshot; no side effect at all -/
+def getEntryQuietly (c : TCfg) (t : Tbl) (k : Nat) (now : Int) : Out :=
+  match lookup t k with
+  | none => .entry none
+  | some n => if hasExpired n now then .entry none else .entry (some (nodeToEntry c n now))
+
+/-- GetEntry: getNode (the read's deadline is stored first), then the snapshot of the node at the time of the lookup -/
+def getEntry (c : TCfg) (t : Tbl) (k : Nat) (now : Int) : Tbl × Out :=
+  match lookup t k with
+  | none => (t, .entry none)
+  | some n =>
+    if hasExpired n now then (t, .entry none)
+    else
+      let n' := calcExpiresAtAfterRead c n now
+      (store t k n', .entry (some (nodeToEntry c n' now)))
+
 end OtterVerif.Impl.Table
